@@ -224,6 +224,56 @@ def poly_marker_oracle(p, poly):
     return None
 
 
+def drawn_point_oracle(p, d):
+    """every drawn point that carries a point property / conductor and is a mesh vertex must carry
+    exactly that assignment in the FINAL mesh (.node), whatever path the mesher took"""
+    kind = p["kind"]
+    idx = {}
+    for i, q in enumerate(d["X"]):
+        idx.setdefault(q, i)
+    for qi, q in enumerate(p["points"]):
+        prop = q.get("prop", 0)
+        cond = q.get("cond", 0) if kind != "fem" else 0
+        if not prop and not cond:
+            continue
+        i = idx.get((q["x"], q["y"]))
+        if i is None:
+            continue
+        want = (prop - 1 if prop else None, cond - 1 if cond else None)
+        m = d["nmark"][i]
+        got = (m - 2 if m > 1 else None, None) if kind == "fem" else py_dec_pt(m)
+        if kind != "fem":
+            # conductors are also carried by the edges through the point (LoadMesh copies them to the nodes)
+            for (u, v, em) in d["E"]:
+                if i in (u, v) and py_dec_seg(em)[1] is not None and got[1] is None:
+                    got = (got[0], py_dec_seg(em)[1])
+        if got != want:
+            return "drawn point %d at (%g,%g) carries (point property, conductor) = %r but its mesh vertex decodes to %r (marker %d)" % (qi, q["x"], q["y"], want, got, m)
+    return None
+
+
+def periodic_problem(rng, kind):
+    """rectangle with (anti)periodic left/right sides and points carrying properties"""
+    B = femgen.Builder(kind)
+    ids = geomgen.base_props(B, kind, rng)
+    p = B.p
+    p["problemtype"] = "planar"; p["units"] = rng.choice(femgen.UNITS); p["depth"] = 1.0; p["dosmartmesh"] = 0
+    ptype = {"fee": 3, "feh": 4, "fem": 4}[kind] + rng.choice([0, 1])
+    per = B.prop("bdryprops", name="per", type=ptype)
+    W, H = 4.0, 2.0
+    B.rect(0.0, 0.0, W, H, dict(l=dict(bdry=per), r=dict(bdry=per), b=dict(bdry=ids["bdry"][0]), t=dict(bdry=ids["bdry"][1])))
+    B.label(1.0, 1.0, ids["mats"][0], maxarea=femgen.mesh_diameter(W * H / 40))
+    # points with properties: an interior point, a point on the bottom side, a corner
+    B.point(1.5, 0.75, prop=ids["pt"], **({} if kind == "fem" else {"cond": ids["cond"][0]}))
+    a = B.point(2.5, 0.0, prop=ids["pt"])
+    segs = p["segments"]
+    bot = segs[0]
+    p["segments"] = [dict(bot, n1=a), dict(bot, n0=a)] + segs[1:]
+    p["points"][2]["prop"] = ids["pt"]
+    p["features"] = ["periodic-rect", kind, "bdrytype%d" % ptype]
+    return p
+
+
 def correspond(ctx):
     rng = ctx.rng
     dis = []
@@ -271,16 +321,27 @@ def correspond(ctx):
         if got != want:
             dis.append(dict(what="Coq decode model and its python mirror differ: %r vs %r" % (got, want), kind=kind))
     # ---- (2) generated problems end to end ----
-    count = 9 if ctx.quick() else 60
+    count = 12 if ctx.quick() else 60
     exprs, cases, feats = [], [], {}
     for k in range(count):
-        p = geomgen.gen_any(rng, k, quick=True)
+        periodic = (k % 3 == 2)
+        p = periodic_problem(rng, ["feh", "fem", "fee"][(k // 3) % 3]) if periodic else geomgen.gen_any(rng, k, quick=True)
+        if not periodic and p["points"] and p.get("pointprops") and rng.random() < 0.5:
+            p["points"][rng.randrange(len(p["points"]))]["prop"] = 1
         for ft in p.get("features", []):
             feats[ft] = feats.get(ft, 0) + 1
         d, msg = c01.mesh_problem(ctx, 100 + k, p)
         if msg:
             ctx.fail(msg, problem=p); continue
-        msg = poly_marker_oracle(p, d["poly"])
+        msg = drawn_point_oracle(p, d)
+        if msg:
+            ctx.fail("fmesher marker assignment: " + msg, problem=p)
+        if periodic:
+            # the .poly of the periodic path is that of the first trial pass: entity ownership is checked
+            # on the final mesh by the validator below
+            msg = None
+        else:
+            msg = poly_marker_oracle(p, d["poly"])
         if msg:
             ctx.fail("fmesher marker assignment: " + msg, problem=p)
         ext = {"fee": ".fee", "feh": ".feh", "fem": ".fem"}[p["kind"]]
@@ -300,7 +361,7 @@ def correspond(ctx):
                 ctx.fail("LoadMesh: element %d has label %d / block %d, the file's label says block %r" %
                          (ei, lbl, e[6], labels[lbl].get("block") if 0 <= lbl < len(labels) else None), problem=p)
                 break
-        if len(d["T"]) <= 1500:
+        if len(d["T"]) <= 1500 and not periodic:
             exprs.append(meshlib.to_coq(d)[0]); cases.append((p, d))
     res = vlib.coq_eval(HEADER, exprs, shard=6, timeout=3000)
     for (p, d), v in zip(cases, res):
@@ -329,7 +390,7 @@ def search(ctx, broken):
     rng = vlib.Rng(ctx.seed + 5)
     for k in range(40):
         p = geomgen.gen_any(rng, k, quick=True)
-        if rng.random() < 0.7 and p["points"]:
+        if rng.random() < 0.7 and p["points"] and p.get("pointprops"):
             # make sure point properties and conductors are exercised
             q = rng.choice(p["points"])
             q["prop"] = 1
